@@ -134,11 +134,17 @@ Fixpoint assoc {A} (n : name) (es : list (name * A)) : option A :=
   | (k, v) :: r => if str_eqb n k then Some v else assoc n r
   end.
 
-(* replace in place, append when absent, delete when [v = None] *)
+Fixpoint assoc_del {A} (n : name) (es : list (name * A)) : list (name * A) :=
+  match es with
+  | [] => []
+  | (k, w) :: r => if str_eqb n k then assoc_del n r else (k, w) :: assoc_del n r
+  end.
+
+(* replace in place, append when absent, delete when [v = None]; n is bound at most once afterwards *)
 Fixpoint assoc_set {A} (n : name) (v : option A) (es : list (name * A)) : list (name * A) :=
   match es with
   | [] => match v with Some x => [(n, x)] | None => [] end
-  | (k, w) :: r => if str_eqb n k then match v with Some x => (k, x) :: r | None => r end
+  | (k, w) :: r => if str_eqb n k then match v with Some x => (k, x) :: assoc_del n r | None => assoc_del n r end
                    else (k, w) :: assoc_set n v r
   end.
 
@@ -219,67 +225,76 @@ Definition link_base (tgt : str) (cur : path) : path := if is_abs tgt then [] el
 (* ---- kernel path resolution.  [follow]: follow a symbolic link in the last
    component.  A missing last component is allowed (the location is returned,
    callers look at [stat]).  [stack] = links being resolved (ELOOP).  The
-   MAXSYMLINKS limit of 40 is not modelled. *)
+   MAXSYMLINKS limit of 40 is not modelled.  [kgo rec] walks one component
+   list; [rec] resolves the target of a symbolic link (one level deeper). *)
+Definition kres_t := list path -> path -> list name -> option path.
+
+Fixpoint kgo (rec : kres_t) (fs : fsys) (stack : list path) (follow : bool)
+             (comps : list name) (cur : path) {struct comps} : option path :=
+  match comps with
+  | [] => Some cur
+  | c :: rest =>
+    if skip_comp c then kgo rec fs stack follow rest cur
+    else if is_dotdot c then kgo rec fs stack follow rest (removelast cur)
+    else
+      let p := cur ++ [c] in
+      match sym_at fs p with
+      | Some tgt =>
+        if is_nil rest && negb follow then Some p
+        else if mem_path p stack then None
+        else match rec (p :: stack) (link_base tgt cur) (comps_of tgt) with
+             | Some q => match rest with
+                         | [] => Some q
+                         | _ :: _ => if is_dir fs q then kgo rec fs stack follow rest q else None
+                         end
+             | None => None
+             end
+      | None =>
+        match stat fs p with
+        | Some (SDir _) => kgo rec fs stack follow rest p
+        | _ => match rest with [] => Some p | _ :: _ => None end
+        end
+      end
+  end.
+
 Fixpoint kres (fuel : nat) (fs : fsys) (stack : list path) (follow : bool)
               (cur : path) (comps : list name) {struct fuel} : option path :=
   match fuel with
   | O => None
-  | S f =>
-    (fix go (comps : list name) (cur : path) {struct comps} : option path :=
-       match comps with
-       | [] => Some cur
-       | c :: rest =>
-         if skip_comp c then go rest cur
-         else if is_dotdot c then go rest (removelast cur)
-         else
-           let p := cur ++ [c] in
-           match sym_at fs p with
-           | Some tgt =>
-             if is_nil rest && negb follow then Some p
-             else if mem_path p stack then None
-             else match kres f fs (p :: stack) true (link_base tgt cur) (comps_of tgt) with
-                  | Some q => match rest with
-                              | [] => Some q
-                              | _ :: _ => if is_dir fs q then go rest q else None
-                              end
-                  | None => None
-                  end
-           | None =>
-             match stat fs p with
-             | Some (SDir _) => go rest p
-             | _ => match rest with [] => Some p | _ :: _ => None end
-             end
-           end
-       end) comps cur
+  | S f => kgo (fun st c cs => kres f fs st true c cs) fs stack follow comps cur
   end.
 
 (* ---- posixpath._joinrealpath (strict=False).  Result: components and the
    "ok" flag; when not ok the components are not normalised (realpath() applies
    abspath() = normpath() afterwards, see [realpath]).  None = out of fuel. *)
+Definition pyres_t := list path -> path -> list name -> option (list name * bool).
+
+Fixpoint pygo (rec : pyres_t) (fs : fsys) (stack : list path)
+              (comps : list name) (cur : path) {struct comps} : option (list name * bool) :=
+  match comps with
+  | [] => Some (cur, true)
+  | c :: rest =>
+    if skip_comp c then pygo rec fs stack rest cur
+    else if is_dotdot c then pygo rec fs stack rest (removelast cur)
+    else
+      let p := cur ++ [c] in
+      match sym_at fs p with
+      | Some tgt =>
+        if mem_path p stack then Some (p ++ rest, false)
+        else match rec (p :: stack) (link_base tgt cur) (comps_of tgt) with
+             | Some (q, true) => pygo rec fs stack rest q
+             | Some (q, false) => Some (q ++ rest, false)
+             | None => None
+             end
+      | None => pygo rec fs stack rest p
+      end
+  end.
+
 Fixpoint pyreal (fuel : nat) (fs : fsys) (stack : list path)
                 (cur : path) (comps : list name) {struct fuel} : option (list name * bool) :=
   match fuel with
   | O => None
-  | S f =>
-    (fix go (comps : list name) (cur : path) {struct comps} : option (list name * bool) :=
-       match comps with
-       | [] => Some (cur, true)
-       | c :: rest =>
-         if skip_comp c then go rest cur
-         else if is_dotdot c then go rest (removelast cur)
-         else
-           let p := cur ++ [c] in
-           match sym_at fs p with
-           | Some tgt =>
-             if mem_path p stack then Some (p ++ rest, false)
-             else match pyreal f fs (p :: stack) (link_base tgt cur) (comps_of tgt) with
-                  | Some (q, true) => go rest q
-                  | Some (q, false) => Some (q ++ rest, false)
-                  | None => None
-                  end
-           | None => go rest p
-           end
-       end) comps cur
+  | S f => pygo (fun st c cs => pyreal f fs st c cs) fs stack comps cur
   end.
 
 Definition realpath (fuel : nat) (fs : fsys) (comps : list name) : option path :=
@@ -454,9 +469,6 @@ Inductive mres :=
 | MOk            (* extracted *)
 | MNonfatal      (* ExtractError: swallowed by TarFile.extract with errorlevel=1 *)
 | MFatal.        (* any other exception leaves TarFile.extract *)
-(* The third component of a result ("consumed") tells that tarfile had to search
-   the archive (_find_link_target): the stream is then read to its end and the
-   next TarFile.next() raises StreamError. *)
 
 (* TarFile._getmember(name, normalize=True) over a list searched from its end *)
 Fixpoint find_member (nm : list name) (ms_rev : list member) : option member :=
@@ -490,13 +502,19 @@ Definition mknode_of (m : member) : inode :=
   | _ => mkInode KSym (m_link m) 511
   end.
 
-Definition finish (fuel : nat) (t : list name) (m : member) (set_attrs : bool)
-                  (r : fsys * mres * bool) : fsys * mres * bool :=
-  match r with
-  | (fs1, MOk, c) => match apply_attrs fuel fs1 t m set_attrs with
-                     | (fs2, true) => (fs2, MOk, c)
-                     | (fs2, false) => (fs2, MNonfatal, c)
-                     end
+(* Result of one member: file system, status, "consumed" (tarfile had to search
+   the archive with _find_link_target: the stream is then read to its end and the
+   next TarFile.next() raises StreamError) and a diagnostic flag "nmk": a member
+   re-extracted by the fall-back of makelink had to create parent directories
+   (observation only; see extract_confined_partial). *)
+Record xres := mkX { x_fs : fsys; x_st : mres; x_consumed : bool; x_nmk : bool }.
+
+Definition finish (fuel : nat) (t : list name) (m : member) (set_attrs : bool) (r : xres) : xres :=
+  match x_st r with
+  | MOk => match apply_attrs fuel (x_fs r) t m set_attrs with
+           | (fs2, true) => mkX fs2 MOk (x_consumed r) (x_nmk r)
+           | (fs2, false) => mkX fs2 MNonfatal (x_consumed r) (x_nmk r)
+           end
   | _ => r
   end.
 
@@ -504,46 +522,47 @@ Definition finish (fuel : nat) (t : list name) (m : member) (set_attrs : bool)
    link ([None] for members found through _find_link_target, which have none);
    [before]/[whole]: archive members in reverse order as TarFile.members holds
    them when this member is extracted (names of already processed members are
-   the ones Bob rewrote).  [nested]: called from the fall-back of makelink.  [depth] bounds the recursion of the fall-back
-   (RecursionError). *)
+   the ones Bob rewrote).  [nested]: called from the fall-back of makelink.
+   [depth] bounds the recursion of the fall-back (RecursionError). *)
 Fixpoint extract_member (depth : nat) (fuel : nat) (fs : fsys) (t : list name) (s : option (list name))
                         (m : member) (set_attrs : bool) (nested : bool) (before whole : list member)
-                        {struct depth} : fsys * mres * bool :=
+                        {struct depth} : xres :=
   match depth with
-  | O => (fs, MFatal, false)
+  | O => mkX fs MFatal false false
   | S depth' =>
     let upper := rstrip_empty (removelast t) in
-    let '(fs0, e0) := if negb (sys_exists fuel fs upper) then makedirs fuel fs upper else (fs, None) in
+    let mk := negb (sys_exists fuel fs upper) in
+    let k0 := nested && mk in
+    let '(fs0, e0) := if mk then makedirs fuel fs upper else (fs, None) in
     match e0 with
-    | Some _ => (fs0, MFatal, false)
+    | Some _ => mkX fs0 MFatal false k0
     | None =>
       (* except symlink_exception / target missing: extract the member the link refers to instead *)
-      let fallback (fsx : fsys) (found : option member) (caught : bool) : fsys * mres * bool :=
+      let fallback (fsx : fsys) (found : option member) (caught : bool) : xres :=
         match found with
-        | None => if caught then (fsx, MNonfatal, true) else (fsx, MFatal, true)      (* KeyError *)
+        | None => mkX fsx (if caught then MNonfatal else MFatal) true k0      (* KeyError *)
         | Some fm =>
-          match extract_member depth' fuel fsx t None fm true true [] whole with
-          | (fs2, st, _) => (fs2, st, true)
-          end
+          let r := extract_member depth' fuel fsx t None fm true true [] whole in
+          mkX (x_fs r) (x_st r) true (k0 || x_nmk r)
         end in
       match m_kind m with
       | MReg =>
         (* makefile() first seeks to the member data: impossible for an earlier member of a stream *)
-        if nested then (fs0, MFatal, false)
+        if nested then mkX fs0 MFatal false k0
         else
         match sys_write fuel fs0 t (m_data m) with
-        | (fs1, None) => finish fuel t m set_attrs (fs1, MOk, false)
-        | (fs1, Some _) => (fs1, MFatal, false)
+        | (fs1, None) => finish fuel t m set_attrs (mkX fs1 MOk false k0)
+        | (fs1, Some _) => mkX fs1 MFatal false k0
         end
       | MDir =>
         match sys_mkdir fuel fs0 t 448 with
-        | (fs1, Some EOTHER) => (fs1, MFatal, false)
-        | (fs1, _) => finish fuel t m set_attrs (fs1, MOk, false)
+        | (fs1, Some EOTHER) => mkX fs1 MFatal false k0
+        | (fs1, _) => finish fuel t m set_attrs (mkX fs1 MOk false k0)
         end
       | MFifo | MChr | MBlk =>
         match sys_mknode fuel fs0 t (mknode_of m) with
-        | (fs1, None) => finish fuel t m set_attrs (fs1, MOk, false)
-        | (fs1, Some _) => (fs1, MFatal, false)
+        | (fs1, None) => finish fuel t m set_attrs (mkX fs1 MOk false k0)
+        | (fs1, Some _) => mkX fs1 MFatal false k0
         end
       | MSym =>
         let '(fs1, e1) := if sys_lexists fuel fs0 t then sys_unlink fuel fs0 t else (fs0, None) in
@@ -551,17 +570,17 @@ Fixpoint extract_member (depth : nat) (fuel : nat) (fs : fsys) (t : list name) (
         | Some _ => finish fuel t m set_attrs (fallback fs1 (find_member (sym_search_name m) whole) true)
         | None =>
           match sys_mknode fuel fs1 t (mknode_of m) with
-          | (fs2, None) => finish fuel t m set_attrs (fs2, MOk, false)
+          | (fs2, None) => finish fuel t m set_attrs (mkX fs2 MOk false k0)
           | (fs2, Some _) => finish fuel t m set_attrs (fallback fs2 (find_member (sym_search_name m) whole) true)
           end
         end
       | MLnk =>
         match s with
-        | None => (fs0, MFatal, false)                       (* os.path.exists(None): TypeError *)
+        | None => mkX fs0 MFatal false k0                       (* os.path.exists(None): TypeError *)
         | Some src =>
           if sys_exists fuel fs0 src then
             match sys_link fuel fs0 src t with
-            | (fs1, None) => finish fuel t m set_attrs (fs1, MOk, false)
+            | (fs1, None) => finish fuel t m set_attrs (mkX fs1 MOk false k0)
             | (fs1, Some _) => finish fuel t m set_attrs (fallback fs1 (find_member (normname (m_link m)) before) true)
             end
           else finish fuel t m set_attrs (fallback fs0 (find_member (normname (m_link m)) before) false)
@@ -572,9 +591,9 @@ Fixpoint extract_member (depth : nat) (fuel : nat) (fs : fsys) (t : list name) (
 
 (* TarFile.extract(member, path, set_attrs) with the extraction filter *)
 Definition tar_extract (fuel : nat) (fs : fsys) (dest : path) (m : member) (set_attrs : bool)
-                       (before whole : list member) : fsys * mres * bool :=
+                       (before whole : list member) : xres :=
   match tar_filter fuel fs dest m with
-  | None => (fs, MFatal, false)
+  | None => mkX fs MFatal false false
   | Some name' =>
     let m' := mkMember name' (m_kind m) (m_link m) (m_mode m) (m_data m) in
     let t := rstrip_empty (dest ++ comps_of name') in
@@ -593,34 +612,35 @@ Definition drop8 (s : str) : str := skipn PREFIX_SLICE s.
 (* TarHelper.__extractPackage loop.  [done_rev]: members already taken from
    the stream, most recent first, with the names Bob assigned to them. *)
 Fixpoint extract_loop (fuel : nat) (fs : fsys) (audit dest : path)
-                      (done_rev : list member) (todo : list member) {struct todo} : fsys * outcome :=
+                      (done_rev : list member) (todo : list member) {struct todo} : fsys * outcome * bool :=
   match todo with
-  | [] => (fs, Extracted)
+  | [] => (fs, Extracted, false)
   | f :: rest =>
     if starts_with CONTENT_PREFIX (m_name f) then
-      if is_lnk (m_kind f) && negb (starts_with CONTENT_PREFIX (m_link f)) then (fs, Rejected)
+      if is_lnk (m_kind f) && negb (starts_with CONTENT_PREFIX (m_link f)) then (fs, Rejected, false)
       else
         let f' := mkMember (drop8 (m_name f)) (m_kind f)
                            (if is_lnk (m_kind f) then drop8 (m_link f) else m_link f)
                            (m_mode f) (m_data f) in
         let whole := rev rest ++ f' :: done_rev in
-        match tar_extract fuel fs dest f' (negb (is_lnk (m_kind f))) done_rev whole with
-        | (fs1, MFatal, _) => (fs1, Rejected)
-        | (fs1, _, true) => (fs1, Rejected)              (* next tar.next(): StreamError *)
-        | (fs1, _, false) => extract_loop fuel fs1 audit dest (f' :: done_rev) rest
+        let r := tar_extract fuel fs dest f' (negb (is_lnk (m_kind f))) done_rev whole in
+        match x_st r, x_consumed r with
+        | MFatal, _ => (x_fs r, Rejected, x_nmk r)
+        | _, true => (x_fs r, Rejected, x_nmk r)              (* next tar.next(): StreamError *)
+        | _, false => extract_loop fuel (x_fs r) audit dest (f' :: done_rev) rest
         end
     else if str_eqb (m_name f) AUDIT_NAME then
       match m_kind f with
       | MReg =>
         match sys_write fuel fs audit (m_data f) with
         | (fs1, None) => extract_loop fuel fs1 audit dest (f :: done_rev) rest
-        | (fs1, Some _) => (fs1, Rejected)
+        | (fs1, Some _) => (fs1, Rejected, false)
         end
-      | _ => (fs, Rejected)                     (* extractfile() gives None / StreamError *)
+      | _ => (fs, Rejected, false)                     (* extractfile() gives None / StreamError *)
       end
     else if str_eqb (m_name f) CONTENT_NAME || str_eqb (m_name f) META_NAME then
       extract_loop fuel fs audit dest (f :: done_rev) rest
-    else (fs, Rejected)
+    else (fs, Rejected, false)
   end.
 
 (* bob.utils.removePath *)
@@ -637,21 +657,21 @@ Record artifact := mkArtifact { a_pax : option str; a_members : list member; a_t
 
 
 (* TarHelper._extract(fileobj, audit, content) for an artifact whose header could be read *)
-Definition bob_extract (fuel : nat) (fs : fsys) (audit dest : path) (a : artifact) : fsys * outcome :=
+Definition bob_extract (fuel : nat) (fs : fsys) (audit dest : path) (a : artifact) : fsys * outcome * bool :=
   let fs1 := remove_path fuel fs audit in
   let fs2 := remove_path fuel fs1 dest in
   match makedirs fuel fs2 dest with
-  | (fs3, Some _) => (fs3, Rejected)
+  | (fs3, Some _) => (fs3, Rejected, false)
   | (fs3, None) =>
     match a_pax a with
     | Some v =>
       if str_eqb v VSN_ONE then
         match extract_loop fuel fs3 audit dest [] (a_members a) with
-        | (fs4, Extracted) => (fs4, if a_tail_ok a then Extracted else Rejected)
+        | (fs4, Extracted, k) => (fs4, if a_tail_ok a then Extracted else Rejected, k)
         | r => r
         end
-      else (fs3, Rejected)
-    | None => (fs3, Rejected)
+      else (fs3, Rejected, false)
+    | None => (fs3, Rejected, false)
     end
   end.
 
@@ -744,8 +764,8 @@ Section Hash.
     | None => (fs, Failed)
     | Some art =>
       match bob_extract fuel fs audit dest art with
-      | (fs1, Rejected) => (fs1, Failed)
-      | (fs1, Extracted) =>
+      | (fs1, Rejected, _) => (fs1, Failed)
+      | (fs1, Extracted, _) =>
         if negb (sys_exists fuel fs1 audit) then (fs1, Failed)            (* misses its audit trail *)
         else
           match audit_bytes fs1 audit, hash_dir fs1 dest with
@@ -807,3 +827,14 @@ Definition pack (fs : fsys) (audit content : path) : option artifact :=
                      true)
   | _, _ => None
   end.
+
+(* ------------------------------------------------------------------ specification *)
+(* locations extraction may touch: the workspace and everything below, the audit file *)
+Definition allowed (dest audit p : path) : bool := is_prefix dest p || is_prefix audit p.
+
+(* fs' looks like fs at every location for which [ok] is false: same node
+   (kind, mode, inode) and, for leaves, same inode content (data, mode, kind) *)
+Definition same_outside (ok : path -> bool) (fs fs' : fsys) : Prop :=
+  forall p, ok p = false ->
+    stat fs' p = stat fs p /\
+    (forall i, stat fs p = Some (SLeaf i) -> inode_of fs' i = inode_of fs i).
